@@ -38,7 +38,12 @@ func vTxBytesModel(msg *wire.MsgTx, mode wire.CodecMode) ([]byte, error) {
 // purposes of every property here). Native replays compute the real id.
 var vTxIDReg []*wire.MsgTx
 var vTxIDs []wire.Hash
-var vTxIDSeeds []wire.Hash // drawn by the harness (in native runs too, so that replays read the same value sequence)
+var vTxIDSeeds []wire.Hash
+
+// vFixedIDs: the id model hands out fixed distinct constants instead of arbitrary values (harnesses with several
+// transactions, where arbitrary ids make every key comparison a solver question; arbitrary ids are covered by the
+// single-transaction harnesses)
+var vFixedIDs bool // drawn by the harness (in native runs too, so that replays read the same value sequence)
 
 func vTxHashModel(msg *wire.MsgTx) wire.Hash {
 	for i, t := range vTxIDReg {
@@ -114,7 +119,11 @@ func vApplySetupID(realID bool) *vApply {
 	tx.AddTxOut(wire.NewTxOut(int64(a.outValue), vP2WSH(a.shOut)))
 	a.rec = &TxRecord{MsgTx: *tx, TxLoc: &wire.TxLoc{TxStart: 100, TxLen: 200}}
 	if realID {
-		vTxIDSeeds = []wire.Hash{vHash()}
+		seed := vHash() // drawn in every case, so that replays read the same value sequence
+		if vFixedIDs {
+			seed = wire.Hash{0xA1}
+		}
+		vTxIDSeeds = []wire.Hash{seed}
 		a.rec.Hash = a.rec.MsgTx.TxHash()
 	} else {
 		a.rec.Hash = vHash()
